@@ -81,4 +81,15 @@ def run(ctx):
         "line starts come from the harness's own scan, validated by TLC against LineStarts(bytes) for inputs <= 300 bytes",
     ]
 
-# MUTANTS: (filled in after mutation testing, see bottom of file)
+# MUTANTS (scratch worktree of /repo, VERIF_REPO=..., quick tier; "caught" = VIOLATION + exit 1):
+#  1 light.rs ib_select1_from backward gallop: `next == 0 ||` removed       caught (select_from panics/over-runs: r = -2)
+#  2 light.rs hint clamp `n.saturating_sub(1)` -> `n`                        caught (select_from with hint >= words: index panic)
+#  3 light.rs cursor_at_offset inside-a-value arm `rank - 1` -> `rank`       caught (cao)
+#  4 light.rs forward gallop stop `ib_rank[next+1] > k` -> `>=`              caught (select_from, wrong word)
+#  5 light.rs forward bracket `lo = prev` -> `lo = prev + 1`                 not caught: EQUIVALENT (the answer word is always
+#    > prev on the forward arm; the model stage's bracket invariant shows the code's bracket is loose by one)
+#  6 light.rs backward bracket `hi = prev` -> `hi = prev - 1`                caught (select_from with hint after the answer)
+#  7 light.rs ib_rank1 partial-word mask `1 << bit` -> `1 << (bit-1)`        caught (rank)
+#  8 light.rs ib_select1_from `result < ib_len` -> `result <= ib_len + 64`   caught (select_from on stray bits / parts-short)
+#  9 lines.rs to_offset `+ column - 1` -> `+ column`                         caught (cap: equivalent pair maps elsewhere)
+# 10 light.rs cursor_at_offset exact-hit arm only when rank == 0            caught (cao at a node start)
